@@ -484,4 +484,191 @@ Proof.
            eexists (with_state x (upd_data (ss x) d (sliced width b0))), _. split; [reflexivity|]. apply npost2_same. apply Write.
         -- exists (with_state x (ss x)), Unresolved. split; [reflexivity|]. apply npost2_same. rewrite with_state_ss. exact HI.
 Qed.
+(* ---------- one step of the iterator, one pass ---------- *)
+Definition post2 (x : sstate) (accF accT : resolution) (st' : state) (rF : resolution) (x' : sstate) (rT : resolution) : Prop :=
+  ss x' = st' /\ le_res rF rT /\ (opt && first = false -> same_flags x x' /\ (accT = accF -> rT = rF)) /\ Inv2 x' /\ sub_flags x x'.
+
+Lemma pass_sim2 : forall l, incl l ns -> forall x c prev accF accT, Inv2 x -> le_res accF accT ->
+  match pass2 m banks defs mb last l (ss x) c prev accF with
+  | Ok (st', rF) => exists x' rT, pass2S m banks defs mb K opt first last l x c prev accT = Ok (x', rT) /\ post2 x accF accT st' rF x' rT
+  | Err => pass2S m banks defs mb K opt first last l x c prev accT = Err
+  | Panic => pass2S m banks defs mb K opt first last l x c prev accT = Panic
+  end.
+Proof.
+  induction l as [|[n cn] l IH]; intros Hincl x c prev accF accT HI Hle; cbn [pass2 pass2S].
+  - destruct (Cursor.advance mb banks c prev) as [c1| |]; try reflexivity.
+    exists x, accT. split; [reflexivity|]. unfold post2.
+    split; [reflexivity|]. split; [exact Hle|]. split; [intros _; split; [apply same_flags_refl|auto]|]. split; [exact HI|apply sub_flags_refl].
+  - unfold step2, step2S. cbn [fst snd].
+    destruct (Cursor.advance mb banks c prev) as [c1| |]; try reflexivity.
+    destruct (Cursor.enter mb banks c1 (shape n)) as [c2| |]; try reflexivity.
+    destruct (Cursor.cur_bank banks c2) as [[b pos]| |]; try reflexivity.
+    pose proof (node_sim2 n cn x b pos (Hincl _ (or_introl eq_refl)) HI) as Hn.
+    destruct (resolve_node2 m defs mb last n cn (ss x) b pos) as [[st1 r1]| |]; try (rewrite Hn; reflexivity).
+    destruct Hn as (x1 & rT1 & HT1 & Hss1 & Hr1 & Hsm1 & HI1 & Hsub1). rewrite HT1. subst st1.
+    assert (Hincl' : incl l ns) by (intros y Hy; apply Hincl; now right).
+    specialize (IH Hincl' x1 c2 (Some (view (ss x1) n)) (merge accF r1) (merge accT rT1) HI1 (le_merge _ _ _ _ Hle Hr1)).
+    destruct (pass2 m banks defs mb last l (ss x1) c2 (Some (view (ss x1) n)) (merge accF r1)) as [[st' rF]| |]; try exact IH.
+    destruct IH as (x' & rT & HT & Hss & Hr & Hsm & HI' & Hsub). exists x', rT. split; [exact HT|].
+    unfold post2. split; [exact Hss|]. split; [exact Hr|]. split; [|split; [exact HI'|eapply sub_flags_trans; eauto]].
+    intro Hof. destruct (Hsm1 Hof) as [Hs1 Ha1]. destruct (Hsm Hof) as [Hs2 Ha2].
+    split; [eapply same_flags_trans; eauto|]. intro Hacc. apply Ha2. subst accT. rewrite Ha1. reflexivity.
+Qed.
 End Sim2.
+
+(* a pass before the last one never reports Resolved when the program has an #assert (also with the flags) *)
+Lemma pass2S_sticky m banks defs mb K opt first last : forall l x c prev x',
+  pass2S m banks defs mb K opt first last l x c prev Unresolved = Ok (x', Resolved) -> False.
+Proof.
+  induction l as [|n l IH]; intros x c prev x' H; cbn [pass2S] in H.
+  - destruct (Cursor.advance mb banks c prev); discriminate.
+  - destruct (step2S m banks defs mb K opt first last n x c prev) as [[[[x1 r1] c1] p1]| |]; try discriminate.
+    cbn [merge] in H. eauto.
+Qed.
+
+Lemma pass2S_guess_assert m banks defs mb K opt first : forall l, has_assert l = true -> forall x c prev acc x' r,
+  pass2S m banks defs mb K opt first false l x c prev acc = Ok (x', r) -> r = Unresolved.
+Proof.
+  induction l as [|n l IH]; intros Ha x c prev acc x' r H; cbn [has_assert existsb] in Ha; [discriminate|].
+  cbn [pass2S] in H.
+  destruct (step2S m banks defs mb K opt first false n x c prev) as [[[[x1 q] c'] p']| |] eqn:E; try discriminate.
+  destruct (is_assert (fst n)) eqn:A.
+  - assert (q = Unresolved).
+    { unfold step2S in E.
+      destruct (Cursor.advance mb banks c prev) as [c1| |]; try discriminate.
+      destruct (Cursor.enter mb banks c1 (shape (fst n))) as [c2| |]; try discriminate.
+      destruct (Cursor.cur_bank banks c2) as [[b pos]| |]; try discriminate.
+      destruct (fst n); try discriminate A. cbn in E. now inversion E. }
+    subst q. destruct r; [|reflexivity]. exfalso.
+    replace (merge acc Unresolved) with Unresolved in H by (destruct acc; reflexivity).
+    eapply pass2S_sticky; eauto.
+  - cbn [orb] in Ha. eapply IH; eauto.
+Qed.
+
+(* ---------- resolve_iteratively ---------- *)
+Section Loop2.
+Variable m : Symbols.mgr.
+Variable banks : list Cursor.bank.
+Variable defs : list ruledef.
+Variable mb : Z.
+Variable ns : list cnode.
+Variable K : kinfo.
+Hypothesis Hres : reserved_free2 m.
+Hypothesis HKsym : forall r, nth_error (k_sym K) r = Some true -> exists d0 e c, In (XConst r d0 e, c) ns /\ const_known e = true.
+Variable opt : bool.
+Hypothesis Hok : forall w d e c, In (XData w d e, c) ns -> data_known e = true -> elem_strict_ok w e = true.
+Hypothesis HKdata : forall w d e c, In (XData w d e, c) ns -> flag (k_data K) d = true -> data_known e = true.
+Hypothesis Hcan : opt = true -> canonical2 ns.
+
+Notation INV := (Inv2 m defs mb ns K opt).
+Notation PS first last x := (run_passS m banks defs mb K opt first last ns x).
+Notation PF last st := (run_pass m banks defs mb last ns st).
+
+Lemma whole_pass2 first last x : INV x ->
+  match PF last (ss x) with
+  | Ok (st', rF) => exists x' rT, PS first last x = Ok (x', rT) /\ ss x' = st' /\ le_res rF rT /\ (opt && first = false -> rT = rF) /\ INV x'
+  | Err => PS first last x = Err
+  | Panic => PS first last x = Panic
+  end.
+Proof.
+  intro HI. unfold run_pass, run_passS.
+  pose proof (pass_sim2 m banks defs mb ns K Hres HKsym opt Hok HKdata Hcan last first ns (fun y Hy => Hy) x
+                (Cursor.init_cursor banks) None Resolved Resolved HI (le_res_refl _)) as H.
+  destruct (pass2 m banks defs mb last ns (ss x) (Cursor.init_cursor banks) None Resolved) as [[st' rF]| |]; try exact H.
+  destruct H as (x' & rT & HT & Hss & Hr & Hsm & HI' & _). exists x', rT.
+  split; [exact HT|]. split; [exact Hss|]. split; [exact Hr|]. split; [|exact HI'].
+  intro Hof. destruct (Hsm Hof) as [_ Ha]. auto.
+Qed.
+
+Definition lockstep2 (F : ores (state * nat)) (T : ores (sstate * nat)) : Prop :=
+  match F with
+  | Ok (st, n) => exists x', T = Ok (x', n) /\ ss x' = st
+  | Err => T = Err
+  | Panic => T = Panic
+  end.
+
+Lemma confirm_lockstep2 x i : INV x ->
+  lockstep2 (match PF true (ss x) with Ok (st', Resolved) => Ok (st', i) | Ok (_, Unresolved) => Err | Err => Err | Panic => Panic end)
+            (match PS false true x with Ok (x', Resolved) => Ok (x', i) | Ok (_, Unresolved) => Err | Err => Err | Panic => Panic end).
+Proof.
+  intro HI. pose proof (whole_pass2 false true x HI) as H.
+  destruct (PF true (ss x)) as [[st' rF]| |]; try (rewrite H; reflexivity).
+  destruct H as (x' & rT & HT & Hss & _ & Heq & _). rewrite HT. rewrite (Heq (andb_false_r _)).
+  destruct rF; cbn; [eauto|reflexivity].
+Qed.
+
+Lemma loop_later2 : forall k i max x, INV x -> (opt = false \/ (1 <= i)%nat) ->
+  lockstep2 (loop2 m banks defs mb ns k i max (ss x)) (loop2S m banks defs mb K opt ns k i max x).
+Proof.
+  induction k as [|k IH]; intros i max x HI Hi; cbn [loop2 loop2S].
+  - apply confirm_lockstep2. exact HI.
+  - assert (Hof : opt && Nat.eqb (S i) 1 = false).
+    { destruct Hi as [->|Hi]; [reflexivity|]. destruct i; [lia|]. apply andb_false_r. }
+    pose proof (whole_pass2 (Nat.eqb (S i) 1) (Nat.eqb (S i) max) x HI) as H.
+    destruct (PF (Nat.eqb (S i) max) (ss x)) as [[st' rF]| |]; try (rewrite H; reflexivity).
+    destruct H as (x' & rT & HT & Hss & _ & Heq & HI'). rewrite HT. rewrite (Heq Hof). subst st'.
+    destruct rF.
+    + destruct (Nat.eqb (S i) max); [cbn; eauto|]. apply confirm_lockstep2. exact HI'.
+    + destruct (Nat.eqb (S i) max); [reflexivity|]. apply IH; [exact HI'|]. right. lia.
+Qed.
+
+Lemma loop_off2 b x : opt = false -> INV x ->
+  lockstep2 (loop2 m banks defs mb ns b 0 b (ss x)) (loop2S m banks defs mb K opt ns b 0 b x).
+Proof. intros Ho HI. apply loop_later2; [exact HI|now left]. Qed.
+
+(* the one-pass situation *)
+Definition one_pass2 (b : nat) (x : sstate) (F : ores (state * nat)) (T : ores (sstate * nat)) : Prop :=
+  exists x2, (1 <= b)%nat /\ INV x2 /\
+    PS true (Nat.eqb 1 b) x = Ok (x2, Resolved) /\ PF (Nat.eqb 1 b) (ss x) = Ok (ss x2, Unresolved) /\
+    T = (if Nat.eqb 1 b then Ok (x2, 1%nat)
+         else match PS false true x2 with Ok (x', Resolved) => Ok (x', 1%nat) | Ok (_, Unresolved) => Err | Err => Err | Panic => Panic end) /\
+    F = (if Nat.eqb 1 b then Err else loop2 m banks defs mb ns (b - 1) 1 b (ss x2)).
+
+Lemma loop_cases2 b x : INV x ->
+  let F := loop2 m banks defs mb ns b 0 b (ss x) in
+  let T := loop2S m banks defs mb K opt ns b 0 b x in
+  lockstep2 F T \/ one_pass2 b x F T.
+Proof.
+  intros HI F T. subst F T. destruct b as [|k].
+  - left. cbn [loop2 loop2S]. apply confirm_lockstep2. exact HI.
+  - cbn [loop2 loop2S]. change (Nat.eqb 1 1) with true.
+    pose proof (whole_pass2 true (Nat.eqb 1 (S k)) x HI) as H.
+    destruct (PF (Nat.eqb 1 (S k)) (ss x)) as [[st' rF]| |] eqn:EF; try (left; rewrite H; reflexivity).
+    destruct H as (x' & rT & HT & Hss & Hle & _ & HI'). subst st'.
+    destruct rF.
+    + left. rewrite HT. rewrite (Hle eq_refl).
+      destruct (Nat.eqb 1 (S k)); [cbn; eauto|]. apply confirm_lockstep2. exact HI'.
+    + destruct rT.
+      * right. exists x'. rewrite HT. replace (S k - 1)%nat with k by lia.
+        split; [lia|]. split; [exact HI'|]. split; [reflexivity|]. split; [exact EF|]. split; reflexivity.
+      * left. rewrite HT. destruct (Nat.eqb 1 (S k)); [reflexivity|]. apply loop_later2; [exact HI'|]. right. lia.
+Qed.
+
+(* forward direction: an optimised success at a budget >= 2 in the one-pass situation *)
+Hypothesis Hdist : syms_distinct2 ns.
+
+Lemma one_pass_fwd2 b x F T : one_pass2 b x F T -> labels_ok2 ns (ss x) -> (2 <= b)%nat ->
+  forall x' n, T = Ok (x', n) -> n = 1%nat /\ F = Ok (ss x', 2%nat).
+Proof.
+  intros (x2 & Hb & HI2 & HT1 & HF1 & HT & HF) Hl Hb2 x' n HTok.
+  assert (E1 : Nat.eqb 1 b = false) by (apply Nat.eqb_neq; lia). rewrite E1 in *.
+  assert (Hl2 : labels_ok2 ns (ss x2)) by (eapply pass2_labels_ok; [exact Hdist|exact Hl|exact HF1]).
+  subst T. pose proof (whole_pass2 false true x2 HI2) as H.
+  destruct (PS false true x2) as [[xc rc]| |] eqn:EC; try discriminate. destruct rc; [|discriminate].
+  inversion HTok; subst x' n; clear HTok.
+  destruct (PF true (ss x2)) as [[stc rF]| |] eqn:EFc; try discriminate.
+  destruct H as (x'' & rT & HT' & Hss & _ & Heq & _). inversion HT'; subst x'' rT; clear HT'.
+  rewrite <- (Heq (andb_false_r _)) in EFc. subst stc.
+  assert (Hfix : ss xc = ss x2) by (eapply pass2_fix; [exact Hl2|exact EFc]).
+  split; [reflexivity|]. subst F. rewrite Hfix in *.
+  destruct b as [|[|k]]; try lia. replace (S (S k) - 1)%nat with (S k) by lia. cbn [loop2].
+  destruct k as [|k].
+  - change (Nat.eqb 2 2) with true. rewrite EFc. reflexivity.
+  - assert (E2 : Nat.eqb 2 (S (S (S k))) = false) by reflexivity. rewrite E2.
+    destruct (has_assert ns) eqn:Ha.
+    + (* with an #assert a guessing pass reports Unresolved: the loop goes on to its last pass; not needed here *)
+      exfalso. unfold run_passS in HT1.
+      pose proof (pass2S_guess_assert m banks defs mb K opt true ns Ha _ _ _ _ _ _ HT1). discriminate.
+    + rewrite (run_pass_agree_no_assert m banks defs mb ns _ _ Ha EFc). rewrite EFc. reflexivity.
+Qed.
+End Loop2.
